@@ -306,6 +306,31 @@ def rng_free_choice(k: int) -> bool:
     return (k // 2) % 3 == 0
 
 
+def outside_domain(desc: dict) -> bool:
+    """Does the description violate what the Instance constructor documents
+    (sizes 1..max bin side, every item fits in some orientation, counts in
+    range)? Then - and only then - a ValueError from the constructor is a
+    correct rejection; decided on the input, not on the message's wording."""
+    try:
+        W, H = int(desc["W"]), int(desc["H"])
+        if not (1 <= W <= 10 ** 12 and 1 <= H <= 10 ** 12):
+            return True
+        mx, mn = max(W, H), min(W, H)
+        items = desc["items"]
+        if not 1 <= len(items) <= 10 ** 8:
+            return True
+        total = 0
+        for w, h, r in items:
+            if not (1 <= w <= mx and 1 <= h <= mx and 1 <= r <= 10 ** 8):
+                return True
+            if w > mn and h > mn:
+                return True
+            total += r
+        return not total <= 10 ** 12
+    except (KeyError, TypeError, ValueError):
+        return True
+
+
 def n_items(desc: dict) -> int:
     return sum(r[2] for r in desc["items"])
 
